@@ -1534,6 +1534,11 @@ theorem zadd_inplace (ctx : Ctx) (args : List Arg) (cis : List CI) (o : BodyOut)
     | exact InPlace.of_ret h (ite_inplace (InPlace.putZ _ _ _) (InPlace.refl _))
     | ((try simp only at h); split at h))
 
+theorem pfmerge_inplace (ctx : Ctx) (args : List Arg) (cis : List CI) (o : BodyOut)
+    (h : Cmd.pfmerge ctx args cis = .ok o) : InPlace cis o.cis := by
+  unfold Cmd.pfmerge at h
+  inplace_auto h
+
 theorem listPop_inplace (left : Bool) (ctx : Ctx) (args : List Arg) (cis : List CI) (o : BodyOut)
     (h : Cmd.listPop left ctx args cis = .ok o) : InPlace cis o.cis := by
   unfold Cmd.listPop at h
@@ -1577,15 +1582,15 @@ theorem inplace_body_keeps (sig : Sig) (body : Body)
       | error e => exact hsame (run_body_err sig body ctx raw nd ha hb).2.2
       | ok o => exact inplace_keeps sig body ctx raw nd ha hb (hip ctx args cis o hb) k it hl
 
-/-- APPEND, INCRBY, SETRANGE, SETBIT, LPUSH, RPUSH, SADD, HSET, ZADD, LPOP, RPOP keep the deadline -/
+/-- APPEND, INCRBY, SETRANGE, SETBIT, LPUSH, RPUSH, SADD, HSET, ZADD, LPOP, RPOP, PFMERGE keep the deadline -/
 def inplaceNames : List String :=
-  ["append", "incrby", "setrange", "setbit", "lpush", "rpush", "sadd", "hset", "zadd", "lpop", "rpop"]
+  ["append", "incrby", "setrange", "setbit", "lpush", "rpush", "sadd", "hset", "zadd", "lpop", "rpop", "pfmerge"]
 
 theorem inplace_commands (name : String) (hn : name ∈ inplaceNames) (ctx : Ctx) (raw : List Bytes) {db : Db}
     (nd : NodupKeys db.dict) (k : Bytes) (it : Item) (hl : (run name ctx raw db).db.live k = some it) :
     it.expireat = deadline db k := by
   simp only [inplaceNames, List.mem_cons, List.mem_nil_iff, or_false] at hn
-  rcases hn with rfl | rfl | rfl | rfl | rfl | rfl | rfl | rfl | rfl | rfl | rfl
+  rcases hn with rfl | rfl | rfl | rfl | rfl | rfl | rfl | rfl | rfl | rfl | rfl | rfl
   · exact inplace_body_keeps _ Cmd.append append_inplace ctx raw nd k it hl
   · exact inplace_body_keeps _ Cmd.incrby incrby_inplace ctx raw nd k it hl
   · exact inplace_body_keeps _ Cmd.setrange setrange_inplace ctx raw nd k it hl
@@ -1597,6 +1602,7 @@ theorem inplace_commands (name : String) (hn : name ∈ inplaceNames) (ctx : Ctx
   · exact inplace_body_keeps _ Cmd.zadd zadd_inplace ctx raw nd k it hl
   · exact inplace_body_keeps _ Cmd.lpop (listPop_inplace true) ctx raw nd k it hl
   · exact inplace_body_keeps _ Cmd.rpop (listPop_inplace false) ctx raw nd k it hl
+  · exact inplace_body_keeps _ Cmd.pfmerge pfmerge_inplace ctx raw nd k it hl
 
 
 /-! ### RENAME / RENAMENX -/
@@ -2301,5 +2307,114 @@ theorem restore_gen (n : String) (ctx : Ctx) (k tb payload : Bytes) (t : Int) (v
     · rw [one_item _ Cmd.restore ctx _ nd ha hb 0 (by simp) _ rfl k']
       simp [CI.setExpire, CI.setValue, ciOf_key, Ne.symm hk']
 
-end FR.Ttl
+/-! ### PFMERGE: the destination is updated in place -/
 
+theorem applyL_first_key_ty (live : Bytes → Option Item) (s : Sig) (ty : Option Ty) (ftl : List ArgTy)
+    (hfix : s.fixed = .key ty .unspecified :: ftl)
+    (dst : Bytes) (rest : List Bytes) {args : List Arg} {cis : List CI}
+    (h : applyL live s (dst :: rest) = .ok (.ok args cis)) :
+    ∃ a' c', args = .key 0 :: a' ∧ cis = ciOf ty dst (live dst) :: c' := by
+  unfold applyL at h
+  split at h
+  · cases h
+  · split at h
+    · cases h
+    · obtain ⟨tl, htl⟩ := types_head s (.key ty .unspecified) ftl hfix (dst :: rest).length
+      rw [htl] at h
+      simp only [List.zip_cons_cons, pass1L, bne_self_eq_false, Bool.false_eq_true, if_false] at h
+      split at h
+      · cases h
+      · cases h
+      · rename_i args1 heq
+        split at h
+        · cases h
+        · rename_i args' cis' heq2
+          simp only [Except.ok.injEq, Sig.Applied.ok.injEq] at h
+          obtain ⟨rfl, rfl⟩ := h
+          -- the first element of `args1` is `.raw dst`
+          have hp1 : ∃ r1, args1 = .raw dst :: r1 := by
+            clear heq2
+            have : ∀ (l : List (Bytes × ArgTy)) (acc : List Arg) (out : List Arg),
+                pass1L live l acc = .ok (.inr out) → ∃ r1, out = acc.reverse ++ r1 := by
+              intro l
+              induction l with
+              | nil => intro acc out h; simp only [pass1L, Except.ok.injEq, Sum.inr.injEq] at h; exact ⟨[], by simp [h]⟩
+              | cons x rest ih =>
+                intro acc out h
+                obtain ⟨b, t⟩ := x
+                cases t
+                case key ty mr =>
+                  simp only [pass1L] at h
+                  split at h
+                  · split at h
+                    · cases h
+                    · obtain ⟨r1, hr⟩ := ih _ _ h; exact ⟨.raw b :: r1, by simp [hr]⟩
+                  · obtain ⟨r1, hr⟩ := ih _ _ h; exact ⟨.raw b :: r1, by simp [hr]⟩
+                all_goals
+                  simp only [pass1L] at h
+                  split at h
+                  · cases h
+                  · rename_i a _
+                    obtain ⟨r1, hr⟩ := ih _ _ h; exact ⟨a :: r1, by simp [hr]⟩
+            obtain ⟨r1, hr⟩ := this _ _ _ heq
+            exact ⟨r1, by simpa using hr⟩
+          obtain ⟨r1, rfl⟩ := hp1
+          simp only [List.zip_cons_cons, pass2L, List.length_nil] at heq2
+          cases ty <;> cases hl : live dst <;> rw [hl] at heq2 <;> simp only at heq2
+          · obtain ⟨a', c', h1, h2⟩ := pass2L_prefix live _ _ _ heq2
+            exact ⟨a', c', by simpa using h1, by simpa [ciOf] using h2⟩
+          · obtain ⟨a', c', h1, h2⟩ := pass2L_prefix live _ _ _ heq2
+            exact ⟨a', c', by simpa using h1, by simpa [ciOf] using h2⟩
+          · obtain ⟨a', c', h1, h2⟩ := pass2L_prefix live _ _ _ heq2
+            exact ⟨a', c', by simpa using h1, by simpa [ciOf] using h2⟩
+          · split at heq2
+            · cases heq2
+            · obtain ⟨a', c', h1, h2⟩ := pass2L_prefix live _ _ _ heq2
+              exact ⟨a', c', by simpa using h1, by simpa [ciOf] using h2⟩
+
+/-- PFMERGE dst src… : whenever the command runs (no arity / type error), the destination holds the merged set with
+the deadline it had before (none when it did not exist) — or is removed when the merged set is empty — and no other
+key changes -/
+theorem pfmerge_gen (n : String) (ctx : Ctx) (dst : Bytes) (srcs : List Bytes) {db : Db} (nd : NodupKeys db.dict) :
+    let out := runRegular ⟨n, [KSet, KSet], [KSet], false, 1, 0, true⟩ Cmd.pfmerge ctx none (dst :: srcs) db
+    out.failed = false →
+      out.reply = .ok ∧
+      (∃ ans, out.db.live dst = (if ans.isEmpty then none else some ⟨.set ans, deadline db dst⟩)) ∧
+      ∀ k', k' ≠ dst → out.db.live k' = db.live k' := by
+  intro out hnf
+  cases ha : applyL db.live ⟨n, [KSet, KSet], [KSet], false, 1, 0, true⟩ (dst :: srcs) with
+  | error e =>
+    have := (run_apply_err _ Cmd.pfmerge ctx _ nd ha).2.1
+    rw [this] at hnf; cases hnf
+  | ok ap =>
+    cases ap with
+    | short r => exact absurd ha (applyL_no_short _ _ (by simp [noMR]) (by simp [noMR]) _ r)
+    | ok args cis =>
+      obtain ⟨a', c', rfl, rfl⟩ := applyL_first_key_ty db.live _ (some .set) [KSet] rfl dst srcs ha
+      have hb : Cmd.pfmerge ctx (.key 0 :: a') (ciOf (some .set) dst (db.live dst) :: c') =
+          .ok ⟨.ok, (ciOf (some .set) dst (db.live dst) :: c').set 0
+            ((ciAt (ciOf (some .set) dst (db.live dst) :: c') 0).update
+              (.set (Cmd.calcSetop .union (Cmd.setOf (ciAt (ciOf (some .set) dst (db.live dst) :: c') 0))
+                ((a'.filterMap fun a => match a with | .key i => some i | _ => none).map
+                  fun i => Cmd.setOf (ciAt (ciOf (some .set) dst (db.live dst) :: c') i))))), 0⟩ := rfl
+      generalize Cmd.calcSetop .union _ _ = ans at hb
+      have hone := fun k => one_item _ Cmd.pfmerge ctx _ nd ha hb 0 (by simp) _ rfl k
+      refine ⟨(run_ok _ _ ctx _ nd ha hb).1, ⟨ans, ?_⟩, fun k' hk' => ?_⟩
+      · rw [hone dst]
+        have hfl := (applyL_fromLive ha _ (List.mem_cons_self)).expireat
+        simp only [ciOf_key] at hfl
+        simp only [CI.update, ciAt, List.getD_cons_zero, ciOf_key, if_true, wbLive, Value.isEmptyColl, hfl]
+        split
+        · rfl
+        · exact keepLive_deadline db dst _
+      · rw [hone k']
+        simp [CI.update, ciAt, ciOf_key, Ne.symm hk']
+
+theorem pfmerge_spec (ctx : Ctx) (dst : Bytes) (srcs : List Bytes) {db : Db} (nd : NodupKeys db.dict) :
+    let out := run "pfmerge" ctx (dst :: srcs) db
+    out.failed = false →
+      out.reply = .ok ∧
+      (∃ ans, out.db.live dst = (if ans.isEmpty then none else some ⟨.set ans, deadline db dst⟩)) ∧
+      ∀ k', k' ≠ dst → out.db.live k' = db.live k' := pfmerge_gen "pfmerge" ctx dst srcs nd
+
+end FR.Ttl
